@@ -13,13 +13,16 @@ import SphericalVerif.Gen.Guards
 
     1. `eval_slices_align`: the two slices `mode_weights[:, i1:i1+n]` and `Y[j1:j1+n]` pair each weight with the
        sYlm of the same (ℓ, m), bijectively with `{(ℓ, m) : ell_lo ≤ ℓ ≤ L, |m| ≤ ℓ}`, end exactly at the end of
-       the weights and lie inside `Y` — *provided* `c ≤ L + 1`.  That proviso is not a guard of the method:
-       `eval_slices_negative` / `eval_guards_do_not_exclude_negative_n` exhibit guard-passing configurations
-       with `n < 0`, on which the shipped code raises from `np.matmul` (finding, replayed on the implementation).
+       the weights and lie inside `Y`, when `c ≤ L + 1`.  Guard-passing configurations with `L + 1 < c` exist
+       (`eval_guards_do_not_exclude_empty`); there the clamp `n = max(Ysize(ell_lo, L), 0)` gives `n = 0`, both
+       slices are empty and the contraction is the literal 0 (`eval_slices_empty`, `evaluateMatrix_empty`).
+       Historical note (`eval_unclamped_would_be_negative`): before commit cf113c2 the source had the unclamped
+       `n = Ysize(ell_lo, L)`, negative there, and `np.matmul` raised on slices of lengths 0 and
+       `max(0, Ysize(c, Lc) + n)` (finding, replayed on the implementation at the time).
     2. `eval_dropped_weights_are_low`: the weights outside the slice are exactly those with ℓ < ell_lo ≤ |s|.
     3. `rotate_block_contiguous`: `𝔇[d1:d2].reshape(2ℓ+1, 2ℓ+1)[m'+ℓ, m+ℓ]` is `𝔇[WignerDindex(ℓ, m', m)]`.
     4. over ℝ: `evaluateMatrix_eq_horner`, `rotateMatrix_eq_horner`: the matrix strategies return what the Horner
-       strategies return.  The model contracts in index order; BLAS's actual order is unspecified, which is
+       strategies return, for *all* guard-passing configurations.  The model contracts in index order; BLAS's actual order is unspecified, which is
        immaterial in exact arithmetic (and only there). -/
 noncomputable section
 namespace Matrix
@@ -29,7 +32,7 @@ open Gen Model MatrixLemmas Horner
 
 /-- closed form of the three numbers `evaluate` computes -/
 theorem eval_slices_closed (c L : Int) (h0 : 0 ≤ c) :
-    evalMatrixSlices c L = (c ^ 2, 0, (L + 1) ^ 2 - c ^ 2) := by
+    evalMatrixSlices c L = (c ^ 2, 0, max ((L + 1) ^ 2 - c ^ 2) 0) := by
   unfold evalMatrixSlices
   have hmax : max c 0 = c := by omega
   simp only [hmax]
@@ -38,8 +41,25 @@ theorem eval_slices_closed (c L : Int) (h0 : 0 ≤ c) :
   · show c ^ 2 - 0 ^ 2 + (-c + c) = c ^ 2; ring
   · show c ^ 2 - c ^ 2 + (-c + c) = 0; ring
 
+/-- … when the calculator and the modes share some ℓ, or just fail to (`c = L + 1`): the clamp is inactive -/
+theorem eval_slices_closed_pos (c L : Int) (h0 : 0 ≤ c) (hn : c ≤ L + 1) :
+    evalMatrixSlices c L = (c ^ 2, 0, (L + 1) ^ 2 - c ^ 2) := by
+  rw [eval_slices_closed c L h0]
+  have hcL : c ^ 2 ≤ (L + 1) ^ 2 := sq_le_sq_of_le c (L + 1) h0 hn
+  have : max ((L + 1) ^ 2 - c ^ 2) 0 = (L + 1) ^ 2 - c ^ 2 := by omega
+  rw [this]
+
+/-- … when they share none (`L + 1 < c`): the clamp gives `n = 0` -/
+theorem eval_slices_closed_empty (c L : Int) (hL0 : -1 ≤ L) (hL : L + 1 < c) :
+    evalMatrixSlices c L = (c ^ 2, 0, 0) := by
+  rw [eval_slices_closed c L (by omega)]
+  have e1 : (L + 1 + 1) ^ 2 ≤ c ^ 2 := sq_le_sq_of_le (L + 1 + 1) c (by omega) (by omega)
+  have e2 : (L + 1 + 1) ^ 2 = (L + 1) ^ 2 + 2 * L + 3 := by ring
+  have : max ((L + 1) ^ 2 - c ^ 2) 0 = 0 := by omega
+  rw [this]
+
 /-- **The slices align.**  `0 ≤ c` is the constructor's guard, `L ≤ Lc` the method's third guard; `c ≤ L + 1`
-    (`n ≥ 0`) is an extra assumption (see `eval_slices_negative`).  The guard on `s` plays no role here: alignment
+    says that the ℓ-ranges of the calculator and of the modes meet or abut (otherwise: `eval_slices_empty`).  The guard on `s` plays no role here: alignment
     is a property of the index arithmetic alone.  With `(i1, j1, n)` as the code computes them and
     `ell_lo = max(c, 0)`:
     * the slices are well-formed, the weights slice ends exactly at the end of the modes array
@@ -57,7 +77,7 @@ theorem eval_slices_align (c Lc L : Int) (h0 : 0 ≤ c) (hL : L ≤ Lc) (hn : c 
     ∧ (∀ k : Int, 0 ≤ k → k < n →
         ∃! p : Int × Int, max c 0 ≤ p.1 ∧ p.1 ≤ L ∧ -p.1 ≤ p.2 ∧ p.2 ≤ p.1
           ∧ Yindex p.1 p.2 (max c 0) = k) := by
-  rw [eval_slices_closed c L h0] at hsl
+  rw [eval_slices_closed_pos c L h0 hn] at hsl
   obtain ⟨rfl, rfl, rfl⟩ : c ^ 2 = i1 ∧ 0 = j1 ∧ (L + 1) ^ 2 - c ^ 2 = n := by
     simpa [Prod.ext_iff] using hsl
   have hmax : max c 0 = c := by omega
@@ -98,33 +118,61 @@ theorem eval_slices_align (c Lc L : Int) (h0 : 0 ≤ c) (hL : L ≤ Lc) (hn : c 
       show m' = k + c ^ 2 - l' ^ 2 - l'
       omega
 
-/-- The proviso `c ≤ L + 1` cannot be dropped: for `L + 1 < c` the length `n` is negative and the weights slice
-    starts beyond the end of the weights (`Ysize(0, L) < i1`).  In NumPy `mode_weights[:, i1:i1+n]` is then empty
-    while `Y[j1:j1+n] = Y[0:n]` (a negative stop counts from the end) has `max(0, Ysize(c, Lc) + n)` entries:
-    whenever `Ysize(c, Lc) + n > 0` the two lengths differ … -/
-theorem eval_slices_negative (c L : Int) (hL0 : 0 ≤ L) (hL : L + 1 < c)
+/-- **No common ℓ: both slices are empty.**  For `L + 1 < c` (the guards may still pass:
+    `eval_guards_do_not_exclude_empty`) the clamp gives `n = 0`: `mode_weights[:, i1:i1]` and `Y[0:0]` are both
+    empty — the former although `i1` lies beyond the end of the weights (`Ysize(0, L) < i1`; a NumPy slice that
+    starts past the end is empty, not an error), the latter inside `Y` — and `np.matmul` of two empty operands is 0. -/
+theorem eval_slices_empty (c Lc L : Int) (hL0 : 0 ≤ L) (hL : L + 1 < c) (hc : c ≤ Lc)
     (i1 j1 n : Int) (hsl : evalMatrixSlices c L = (i1, j1, n)) :
-    n < 0 ∧ Ysize 0 L < i1 ∧ j1 = 0 := by
-  rw [eval_slices_closed c L (by omega)] at hsl
-  obtain ⟨rfl, rfl, rfl⟩ : c ^ 2 = i1 ∧ 0 = j1 ∧ (L + 1) ^ 2 - c ^ 2 = n := by
+    0 ≤ n ∧ n = 0 ∧ j1 = 0 ∧ j1 + n ≤ Ysize c Lc ∧ Ysize 0 L < i1 := by
+  rw [eval_slices_closed_empty c L (by omega) hL] at hsl
+  obtain ⟨rfl, rfl, rfl⟩ : c ^ 2 = i1 ∧ 0 = j1 ∧ 0 = n := by
     simpa [Prod.ext_iff] using hsl
   have e1 : (L + 1 + 1) ^ 2 ≤ c ^ 2 := sq_le_sq_of_le (L + 1 + 1) c (by omega) (by omega)
   have e2 : (L + 1 + 1) ^ 2 = (L + 1) ^ 2 + 2 * L + 3 := by ring
-  rw [ysize_closed]
-  exact ⟨by omega, by omega, rfl⟩
+  have e3 : c ^ 2 ≤ Lc ^ 2 := sq_le_sq_of_le c Lc (by omega) hc
+  have e4 : (Lc + 1) ^ 2 = Lc ^ 2 + 2 * Lc + 1 := by ring
+  rw [ysize_closed, ysize_closed]
+  exact ⟨le_refl 0, rfl, rfl, by omega, by omega⟩
 
-/-- … and such configurations pass every guard of the constructor and of `evaluate`
-    (`Wigner(8, ell_min=3)`, modes with `s = -3`, `ell_max = 1`): there `n = -5`, the slices have lengths 0 and
-    `72 − 5 = 67`, and `np.matmul` raises `ValueError` (observed on the implementation: "size 67 is different
-    from 0"), while `horner=True` returns 0. -/
-theorem eval_guards_do_not_exclude_negative_n :
+/-- `n ≥ 0` unconditionally (the clamp) -/
+theorem eval_slices_n_nonneg (c L : Int) : 0 ≤ (evalMatrixSlices c L).2.2 := by
+  unfold evalMatrixSlices
+  exact le_max_right _ _
+
+/-- … and then the model's contraction is the empty fold, the literal 0, at every scalar type
+    (in particular at `Float`) -/
+theorem evaluateMatrix_empty {α : Type} [Scalar α] {μ : Type} [Mem μ α] (st : μ)
+    (f za : Array (Cx α)) (zgpow : Cx α) (s c Lc L : Int) (hL0 : -1 ≤ L) (hL : L + 1 < c) :
+    evaluateMatrix st f za zgpow s c Lc L = ⟨_root_.zero, _root_.zero⟩ := by
+  unfold evaluateMatrix dotSlices
+  rw [eval_slices_closed_empty c L hL0 hL]
+  rfl
+
+/-- such configurations pass every guard of the constructor and of `evaluate` (`Wigner(8, ell_min=3)`, modes with
+    `s = -3`, `ell_max = 1`): the slices are `mode_weights[:, 9:9]` (of 4 weights) and `Y[0:0]` (of 72 entries);
+    the implementation returns 0 on both routes. -/
+theorem eval_guards_do_not_exclude_empty :
     Wigner___init___ok 3 8 8 = true ∧ Wigner_evaluate_ok (-3) 0 1 8 3 8 = true
-    ∧ evalMatrixSlices 3 1 = (9, 0, -5) ∧ Ysize 0 1 = 4 ∧ Ysize 3 8 = 72 := by decide
+    ∧ evalMatrixSlices 3 1 = (9, 0, 0) ∧ Ysize 0 1 = 4 ∧ Ysize 3 8 = 72 := by decide
+
+/-- Historical note: the *unclamped* expression `Ysize(ell_lo, L)` that the source used for `n` before commit
+    cf113c2 is negative whenever `L + 1 < c`; `Y[0:n]` then counted from the end of `Y` and `np.matmul` raised
+    whenever `Ysize(c, Lc) + n > 0` (e.g. the configuration above: `n = -5`, lengths 0 and 67). -/
+theorem eval_unclamped_would_be_negative (c L : Int) (hL0 : 0 ≤ L) (hL : L + 1 < c) :
+    Ysize (max c 0) L < 0 := by
+  have hmax : max c 0 = c := by omega
+  rw [hmax, ysize_closed]
+  have e1 : (L + 1 + 1) ^ 2 ≤ c ^ 2 := sq_le_sq_of_le (L + 1 + 1) c (by omega) (by omega)
+  have e2 : (L + 1 + 1) ^ 2 = (L + 1) ^ 2 + 2 * L + 3 := by ring
+  omega
+
+example : Ysize (max 3 0) 1 = -5 ∧ Ysize 3 8 + -5 = 67 := by decide
 
 /-! ## 2. `evaluate`: what the slice leaves out -/
 
 /-- A weight (ℓ, m) of the modes array (position `Yindex(ℓ, m, 0)`) lies before the slice iff `ℓ < ell_lo`, inside
-    it iff `ell_lo ≤ ℓ ≤ L`; with the method's second guard `c ≤ max(|s|, 0)` the dropped weights all have
+    it iff `ell_lo ≤ ℓ ≤ L` (never, when `L < ell_lo`: then the slice is empty); with the method's second guard `c ≤ max(|s|, 0)` the dropped weights all have
     `ℓ < |s|` (they are zero in a Modes object, and `_evaluate_Horner` skips them too). -/
 theorem eval_dropped_weights_are_low (c L s : Int) (h0 : 0 ≤ c) (hs : c ≤ max (s.natAbs : Int) 0)
     (hL0 : -1 ≤ L)
@@ -133,11 +181,7 @@ theorem eval_dropped_weights_are_low (c L s : Int) (h0 : 0 ≤ c) (hs : c ≤ ma
     (Yindex ell m 0 < i1 ↔ ell < max c 0)
     ∧ (i1 ≤ Yindex ell m 0 ∧ Yindex ell m 0 < i1 + n ↔ max c 0 ≤ ell ∧ ell ≤ L)
     ∧ (Yindex ell m 0 < i1 → ell < (s.natAbs : Int)) := by
-  rw [eval_slices_closed c L h0] at hsl
-  obtain ⟨rfl, rfl, rfl⟩ : c ^ 2 = i1 ∧ 0 = j1 ∧ (L + 1) ^ 2 - c ^ 2 = n := by
-    simpa [Prod.ext_iff] using hsl
   have hmax : max c 0 = c := by omega
-  rw [hmax, yindex_closed ell m 0 hl]
   have e3 : (ell + 1) ^ 2 = ell ^ 2 + 2 * ell + 1 := by ring
   have low : ell ^ 2 - 0 ^ 2 + (m + ell) < c ^ 2 ↔ ell < c := by
     constructor
@@ -146,16 +190,29 @@ theorem eval_dropped_weights_are_low (c L s : Int) (h0 : 0 ≤ c) (hs : c ≤ ma
     · intro h
       have : (ell + 1) ^ 2 ≤ c ^ 2 := sq_le_sq_of_le (ell + 1) c (by omega) (by omega)
       omega
-  refine ⟨low, ?_, fun h => by have := low.mp h; omega⟩
-  constructor
-  · rintro ⟨a, b⟩
-    refine ⟨by have := mt low.mpr (by omega : ¬ _ < c ^ 2); omega, ?_⟩
-    have : ell < L + 1 := lt_of_sq_lt_sq ell (L + 1) (by omega) (by omega)
-    omega
-  · rintro ⟨a, b⟩
-    have e1 : c ^ 2 ≤ ell ^ 2 := sq_le_sq_of_le c ell h0 a
-    have e2 : (ell + 1) ^ 2 ≤ (L + 1) ^ 2 := sq_le_sq_of_le (ell + 1) (L + 1) (by omega) (by omega)
-    omega
+  by_cases hn : c ≤ L + 1
+  · rw [eval_slices_closed_pos c L h0 hn] at hsl
+    obtain ⟨rfl, rfl, rfl⟩ : c ^ 2 = i1 ∧ 0 = j1 ∧ (L + 1) ^ 2 - c ^ 2 = n := by
+      simpa [Prod.ext_iff] using hsl
+    rw [hmax, yindex_closed ell m 0 hl]
+    refine ⟨low, ?_, fun h => by have := low.mp h; omega⟩
+    constructor
+    · rintro ⟨a, b⟩
+      refine ⟨by have := mt low.mpr (by omega : ¬ _ < c ^ 2); omega, ?_⟩
+      have : ell < L + 1 := lt_of_sq_lt_sq ell (L + 1) (by omega) (by omega)
+      omega
+    · rintro ⟨a, b⟩
+      have e1 : c ^ 2 ≤ ell ^ 2 := sq_le_sq_of_le c ell h0 a
+      have e2 : (ell + 1) ^ 2 ≤ (L + 1) ^ 2 := sq_le_sq_of_le (ell + 1) (L + 1) (by omega) (by omega)
+      omega
+  · rw [eval_slices_closed_empty c L hL0 (by omega)] at hsl
+    obtain ⟨rfl, rfl, rfl⟩ : c ^ 2 = i1 ∧ 0 = j1 ∧ 0 = n := by
+      simpa [Prod.ext_iff] using hsl
+    rw [hmax, yindex_closed ell m 0 hl]
+    refine ⟨low, ?_, fun h => by have := low.mp h; omega⟩
+    constructor
+    · rintro ⟨a, b⟩; omega
+    · rintro ⟨a, b⟩; omega
 
 /-! ## 3. `_rotate`: the 𝔇 block of one ℓ -/
 
